@@ -23,6 +23,15 @@ pub struct Sc {
     pub maxdepth: Option<usize>,
     pub depth: bool,
     pub sorted: bool,
+    /// the same option given earlier on the command line with another value: the one given
+    /// last applies (rendered only in front of a real bound)
+    #[serde(default)]
+    pub earlier_mindepth: Option<usize>,
+    #[serde(default)]
+    pub earlier_maxdepth: Option<usize>,
+    /// a directory with exactly this many unreadable directories in it (`TreeSpec::bulk`)
+    #[serde(default)]
+    pub note: String,
 }
 
 impl Sc {
@@ -43,6 +52,14 @@ impl Sc {
             a.push(f.clone());
         }
         a.extend(self.starts.iter().cloned());
+        if let (Some(e), Some(_)) = (self.earlier_mindepth, self.mindepth) {
+            a.push("-mindepth".into());
+            a.push(e.to_string());
+        }
+        if let (Some(e), Some(_)) = (self.earlier_maxdepth, self.maxdepth) {
+            a.push("-maxdepth".into());
+            a.push(e.to_string());
+        }
         if let Some(m) = self.mindepth {
             a.push("-mindepth".into());
             a.push(m.to_string());
@@ -103,6 +120,38 @@ impl Property for C02 {
     }
 
     fn generate(rng: &mut Rng, _tier: Tier) -> Sc {
+        if rng.chance(1, 80) {
+            // exactly 255, 256, 257 or 512 entries of one starting point cannot be read (and
+            // nothing else fails): every one is diagnosed, and the status is non-zero
+            let under_l = rng.chance(1, 2);
+            let mut spec = crate::tree::TreeSpec::default();
+            for p in ["t", "t/many", "t/ok", "u"] {
+                spec.nodes.push(Node::Dir { path: p.into() });
+            }
+            spec.nodes.push(Node::File { path: "t/ok/f".into(), size: 1, token: 1, atime_ns: None, mtime_ns: None });
+            spec.nodes.push(Node::File { path: "u/g".into(), size: 1, token: 2, atime_ns: None, mtime_ns: None });
+            spec.bulk.push(crate::tree::Bulk {
+                dir: "t/many".into(),
+                count: *rng.pick(&[255usize, 256, 256, 257, 512]),
+                kind: if under_l { crate::tree::BulkKind::SelfLink } else { crate::tree::BulkKind::Dir000 },
+            });
+            let find = FindScenario::new(spec, vec![]);
+            let mut sc = Sc {
+                find,
+                follow_flag: if under_l { Some("-L".into()) } else { None },
+                follow_in_expr: false,
+                starts: if rng.chance(1, 2) { vec!["t".into()] } else { vec!["t".into(), "u".into()] },
+                mindepth: None,
+                maxdepth: None,
+                depth: rng.chance(1, 3),
+                sorted: rng.chance(1, 2),
+                earlier_mindepth: None,
+                earlier_maxdepth: None,
+                note: "hundreds of unreadable entries".into(),
+            };
+            sc.render();
+            return sc;
+        }
         let nroots = rng.small(1, 3);
         let roots: Vec<String> = ["t", "u", "v"][..nroots].iter().map(|s| s.to_string()).collect();
         let cfg = TreeCfg {
@@ -278,6 +327,9 @@ impl Property for C02 {
             maxdepth,
             depth: rng.chance(1, 3),
             sorted: rng.chance(1, 2),
+            earlier_mindepth: if rng.chance(1, 10) { Some(rng.urange(0, 6)) } else { None },
+            earlier_maxdepth: if rng.chance(1, 10) { Some(rng.urange(0, 6)) } else { None },
+            note: String::new(),
         };
         sc.render();
         sc
@@ -347,6 +399,12 @@ impl Property for C02 {
         }
         if sc.starts.len() > 1 {
             rep.probe("several_starting_points");
+        }
+        if sc.note.starts_with("hundreds") && (rw.diag_owed || rw.unreadable_dirs > 0) {
+            rep.probe("hundreds_of_unreadable_entries_under_one_starting_point");
+        }
+        if sc.earlier_mindepth.is_some() && sc.mindepth.is_some() || sc.earlier_maxdepth.is_some() && sc.maxdepth.is_some() {
+            rep.probe("depth_option_given_twice");
         }
         if sc.starts.iter().any(|s| s.trim_start_matches("./") == "missing") {
             rep.probe("missing_starting_point");
